@@ -20,8 +20,11 @@ Cause(r) == LET f == FaultByName(r.fault)
             IF ModelOutcome(CaseOf(r)) = "hostpanic" THEN own
             ELSE <<"situation", SituationClass(r.situation), r.form, r.opt>>
 Sig(r) == IF ~Known(r) THEN [fam |-> "faults", fault |-> "unknown-case", cause |-> "unknown-case"]
-          ELSE IF IsFault(r) THEN [fam |-> "faults", fault |-> FaultByName(r.fault).class, cause |-> Cause(r)]
-          ELSE [fam |-> "show", value |-> ValueClass(r.value), ctx |-> CtxClass(r.ctx)]
+          ELSE IF IsFault(r) THEN
+               [fam |-> "faults", cause |-> Cause(r),
+                \* the fault class when the fault's own conversion is the cause, else only how the fault ends per the reference
+                fault |-> IF ModelOutcome(CaseOf(r)) = "hostpanic" THEN FaultByName(r.fault).class ELSE RefClass(r.fault)]
+          ELSE [fam |-> "show", value |-> ValueClass(r.value), ctxclass |-> CtxClass(r.ctx), ctx |-> r.ctx]
 
 (* ---- record-walk skeleton (same in every record-per-line Trace spec; see spec/README) ---- *)
 VARIABLES l, nbad
